@@ -5,7 +5,8 @@
    `is >> double`; the hypothesis [read (show d) = Some (d, None)] for doubles [d] is the IEEE
    "17 significant digits suffice" fact (trusted; exercised by the correspondence on every run). *)
 From Coq Require Import List NArith QArith Qround.
-From AIT Require Import C17.Model C17.Spec C17.Proofs C17.ProofsPolicy C17.ProofsSparse C17.ProofsTrunc.
+From AIT Require Import C17.Model C17.Spec C17.Proofs C17.ProofsPolicy C17.ProofsSparse C17.ProofsTrunc
+  C17.ProofsFuel C17.ProofsTruncSparse C17.ProofsValid C17.ProofsValidPolicy.
 Import ListNotations.
 Local Open Scope nat_scope.
 
@@ -60,7 +61,9 @@ Print Assumptions roundtrip_pomdp_model.
 Theorem roundtrip_pomdp_policy :
   forall (token : Type) (show : Q -> token) (read : token -> option (Q * option token))
          (showN : N -> token) (readN : token -> option (N * option token))
-         (at_tok : token) (split_at : token -> option (option token)) (dbl : Q -> Prop) (u64 : N -> Prop),
+         (at_tok : token) (split_at : token -> option (option token)) (tsize : token -> nat)
+         (dbl : Q -> Prop) (u64 : N -> Prop),
+  (forall t, 1 <= tsize t) ->
   (forall d, dbl d -> read (show d) = Some (d, None)) ->
   (forall n, u64 n -> readN (showN n) = Some (n, None)) ->
   split_at at_tok = Some None ->
@@ -68,7 +71,7 @@ Theorem roundtrip_pomdp_policy :
   (forall n, u64 n -> split_at (showN n) = None) ->
   forall x dest, wf_pomdp_policy dbl u64 x ->
   ppS dest = ppS x -> ppA dest = ppA x -> ppO dest = ppO x ->
-  read_pomdp_policy token read readN split_at (write_pomdp_policy token show showN at_tok x) dest = (x, ROk x []).
+  read_pomdp_policy token read readN split_at tsize (write_pomdp_policy token show showN at_tok x) dest = (x, ROk x []).
 Proof. exact roundtrip_pomdp_policy_thm. Qed.
 Print Assumptions roundtrip_pomdp_policy.
 
@@ -125,7 +128,7 @@ Theorem set_from_triplets_sorted_id :
 Proof. exact set_from_triplets_sorted. Qed.
 Print Assumptions set_from_triplets_sorted_id.
 
-(* ---- every truncation point (dense kinds): a file cut after n < length tokens fails to load ---- *)
+(* ---- every truncation point, all eight kinds: a file cut after n < length tokens fails to load ---- *)
 Theorem truncation_fails :
   forall (token : Type) (show : Q -> token) (read : token -> option (Q * option token))
          (showN : N -> token) (readN : token -> option (N * option token)) (dbl : Q -> Prop) (u64 : N -> Prop),
@@ -147,12 +150,113 @@ Theorem truncation_fails :
 Proof. exact truncation_fails_lemma. Qed.
 Print Assumptions truncation_fails.
 
+Theorem truncation_fails_sparse :
+  forall (token : Type) (show : Q -> token) (read : token -> option (Q * option token))
+         (showN : N -> token) (readN : token -> option (N * option token)) (dbl : Q -> Prop) (u64 : N -> Prop),
+  (forall d, dbl d -> read (show d) = Some (d, None)) ->
+  (forall n, u64 n -> readN (showN n) = Some (n, None)) ->
+  (forall x dest n, wf_smodel dbl u64 x -> smS dest = smS x -> smA dest = smA x ->
+     n < length (write_smodel token show showN x) ->
+     read_smodel token read readN (firstn n (write_smodel token show showN x)) dest = (dest, RFail)) /\
+  (forall x dest n, wf_sexperience dbl u64 x -> seS dest = seS x -> seA dest = seA x ->
+     n < length (write_sexperience token show showN x) ->
+     read_sexperience token read readN (firstn n (write_sexperience token show showN x)) dest = (dest, RFail)) /\
+  (forall x dest n, wf_spomdp_model dbl u64 x ->
+     spmO dest = spmO x -> smS (spmM dest) = smS (spmM x) -> smA (spmM dest) = smA (spmM x) ->
+     n < length (write_spomdp_model token show showN x) ->
+     read_spomdp_model token read readN (firstn n (write_spomdp_model token show showN x)) dest = (dest, RFail)).
+Proof. exact truncation_fails_sparse_lemma. Qed.
+Print Assumptions truncation_fails_sparse.
+
+(* POMDP::Policy, any horizon.  [tsize] = number of characters of a token; what an extraction
+   leaves of a token is shorter than the token (needed only to bound the loop). *)
+Theorem truncation_fails_pomdp_policy :
+  forall (token : Type) (show : Q -> token) (read : token -> option (Q * option token))
+         (showN : N -> token) (readN : token -> option (N * option token))
+         (at_tok : token) (split_at : token -> option (option token)) (tsize : token -> nat)
+         (dbl : Q -> Prop) (u64 : N -> Prop),
+  (forall t, 1 <= tsize t) ->
+  (forall d, dbl d -> read (show d) = Some (d, None)) ->
+  (forall n, u64 n -> readN (showN n) = Some (n, None)) ->
+  split_at at_tok = Some None ->
+  (forall d, dbl d -> split_at (show d) = None) ->
+  (forall n, u64 n -> split_at (showN n) = None) ->
+  (forall t q t', read t = Some (q, Some t') -> tsize t' < tsize t) ->
+  (forall t n t', readN t = Some (n, Some t') -> tsize t' < tsize t) ->
+  (forall t t', split_at t = Some (Some t') -> tsize t' < tsize t) ->
+  forall x dest n, wf_pomdp_policy dbl u64 x ->
+  ppS dest = ppS x -> ppA dest = ppA x -> ppO dest = ppO x ->
+  n < length (write_pomdp_policy token show showN at_tok x) ->
+  read_pomdp_policy token read readN split_at tsize
+    (firstn n (write_pomdp_policy token show showN at_tok x)) dest = (dest, RFail).
+Proof. exact truncation_fails_pomdp_policy_thm. Qed.
+Print Assumptions truncation_fails_pomdp_policy.
+
+(* ---- the POMDP::Policy reader terminates: every iteration of its while(true) loop consumes at
+        least one character, so the model's fuel (characters on the stream + 1) is never exhausted
+        and the status St_fuel is unreachable — for every token stream ---- *)
+Theorem pomdp_policy_reader_terminates :
+  forall (token : Type) (read : token -> option (Q * option token)) (readN : token -> option (N * option token))
+         (split_at : token -> option (option token)) (tsize : token -> nat),
+  (forall t, 1 <= tsize t) ->
+  (forall t q t', read t = Some (q, Some t') -> tsize t' < tsize t) ->
+  (forall t n t', readN t = Some (n, Some t') -> tsize t' < tsize t) ->
+  (forall t t', split_at t = Some (Some t') -> tsize t' < tsize t) ->
+  forall toks dest,
+  status_of (snd (read_pomdp_policy token read readN split_at tsize toks dest)) <> St_fuel.
+Proof. exact pomdp_policy_reader_terminates_lemma. Qed.
+Print Assumptions pomdp_policy_reader_terminates.
+
+(* ---- corruption: whatever token stream a reader accepts (a corrupted file included), the object
+        it commits is exactly what it returns and is well-formed — shapes, probabilities, discount,
+        links in range — with the destination's dimensions; hence, by the round-trip theorems, it
+        is the object whose own written image loads back to it.  Together with
+        failed_load_leaves_dest: a corrupted stream is either rejected with the destination
+        unchanged, or loads a well-formed object.  [dbl]/[u64] = what the extractors can produce. ---- *)
+Theorem loaded_object_is_wf :
+  forall (token : Type) (read : token -> option (Q * option token)) (readN : token -> option (N * option token))
+         (split_at : token -> option (option token)) (tsize : token -> nat) (dbl : Q -> Prop) (u64 : N -> Prop),
+  (forall t q l, read t = Some (q, l) -> dbl q) ->
+  (forall t n l, readN t = Some (n, l) -> u64 n) ->
+  (accepts token (read_model token read) (fun d x => wf_model dbl x /\ mS x = mS d /\ mA x = mA d) /\
+   accepts token (read_experience token read readN) (fun d x => wf_experience dbl u64 x /\ eS x = eS d /\ eA x = eA d) /\
+   accepts token (read_mdp_policy token read) (fun d x => wf_mdp_policy dbl x /\ pS x = pS d /\ pA x = pA d) /\
+   accepts token (read_pomdp_model token read)
+     (fun d x => wf_pomdp_model dbl x /\ pmO x = pmO d /\ mS (pmM x) = mS (pmM d) /\ mA (pmM x) = mA (pmM d))) /\
+  accepts token (read_pomdp_policy token read readN split_at tsize)
+    (fun d x => wf_pomdp_policy dbl u64 x /\ ppS x = ppS d /\ ppA x = ppA d /\ ppO x = ppO d).
+Proof. exact loaded_object_is_wf_lemma. Qed.
+Print Assumptions loaded_object_is_wf.
+
+(* sparse kinds: sorted duplicate-free in-range storage, valid probabilities and discount
+   (the sum of two duplicate entries is exact in the model, so no "is a double" claim here) *)
+Theorem loaded_sparse_object_is_wf :
+  forall (token : Type) (read : token -> option (Q * option token)) (readN : token -> option (N * option token)),
+  accepts token (read_smodel token read readN) (fun d x => wf_smodel anyQ anyN x /\ smS x = smS d /\ smA x = smA d) /\
+  accepts token (read_sexperience token read readN)
+    (fun d x => wf_sexperience anyQ anyN x /\ seS x = seS d /\ seA x = seA d) /\
+  accepts token (read_spomdp_model token read readN)
+    (fun d x => wf_spomdp_model anyQ anyN x /\ spmO x = spmO d /\
+                smS (spmM x) = smS (spmM d) /\ smA (spmM x) = smA (spmM d)).
+Proof. exact loaded_sparse_lemma. Qed.
+Print Assumptions loaded_sparse_object_is_wf.
+
+(* ---- the oracle's boolean validity checkers are sound for the wf_ predicates ---- *)
+Theorem valid_checkers_sound :
+  (forall m, valid_model_b m = true -> wf_model anyQ m) /\
+  (forall p, valid_mdp_policy_b p = true -> wf_mdp_policy anyQ p) /\
+  (forall p, valid_pomdp_policy_b p = true -> wf_pomdp_policy anyQ anyN p) /\
+  (forall A (dest res : A) st same, (same = true -> res = dest) -> load_atomic_b st same = true -> load_atomic dest res st).
+Proof. exact valid_checkers_sound_lemma. Qed.
+Print Assumptions valid_checkers_sound.
+
 (* A load whose status is not ok (failbit, or an exception out of setDiscount) returns the
    destination unchanged — for all eight operator>> and for any token stream whatsoever
    (truncated, corrupted, or semantically invalid). *)
 Theorem failed_load_leaves_dest :
   forall (token : Type) (read : token -> option (Q * option token))
-         (readN : token -> option (N * option token)) (split_at : token -> option (option token)),
+         (readN : token -> option (N * option token)) (split_at : token -> option (option token))
+         (tsize : token -> nat),
   leaves_dest token (read_model token read) /\
   leaves_dest token (read_smodel token read readN) /\
   leaves_dest token (read_experience token read readN) /\
@@ -160,7 +264,7 @@ Theorem failed_load_leaves_dest :
   leaves_dest token (read_mdp_policy token read) /\
   leaves_dest token (read_pomdp_model token read) /\
   leaves_dest token (read_spomdp_model token read readN) /\
-  leaves_dest token (read_pomdp_policy token read readN split_at).
+  leaves_dest token (read_pomdp_policy token read readN split_at tsize).
 Proof. exact failed_load_leaves_dest_lemma. Qed.
 Print Assumptions failed_load_leaves_dest.
 
@@ -185,7 +289,7 @@ Proof. reflexivity. Qed.
 Example ex_roundtrip_pomdp_policy_nonvacuous :
   wf_pomdp_policy anyQ anyN ex_pomdp_policy /\ x_split_at XAt = Some None /\
   (forall d, anyQ d -> x_split_at (x_show d) = None) /\ (forall n, anyN n -> x_split_at (x_showN n) = None) /\
-  read_pomdp_policy xtoken x_read x_readN x_split_at (write_pomdp_policy xtoken x_show x_showN XAt ex_pomdp_policy)
+  read_pomdp_policy xtoken x_read x_readN x_split_at x_tsize (write_pomdp_policy xtoken x_show x_showN XAt ex_pomdp_policy)
     ex_pomdp_policy_dest = (ex_pomdp_policy, ROk ex_pomdp_policy []).
 Proof. split; [exact ex_pomdp_policy_wf|]. repeat split. Qed.
 
@@ -200,3 +304,21 @@ Example ex_roundtrip_sparse_nonvacuous :
   read_smodel xtoken x_read x_readN (write_smodel xtoken x_show x_showN ex_smodel) ex_smodel_dest
     = (ex_smodel, ROk ex_smodel []).
 Proof. split; [exact ex_smodel_wf|]. split; [exact ex_sexperience_wf|]. reflexivity. Qed.
+
+(* the size hypotheses of the termination / POMDP::Policy truncation theorems are satisfiable *)
+Example ex_fuel_hypotheses :
+  (forall t, 1 <= x_tsize t) /\
+  (forall t q t', x_read t = Some (q, Some t') -> x_tsize t' < x_tsize t) /\
+  (forall t n t', x_readN t = Some (n, Some t') -> x_tsize t' < x_tsize t) /\
+  (forall t t', x_split_at t = Some (Some t') -> x_tsize t' < x_tsize t) /\
+  read_pomdp_policy xtoken x_read x_readN x_split_at x_tsize
+    (firstn 7 (write_pomdp_policy xtoken x_show x_showN XAt ex_pomdp_policy)) ex_pomdp_policy_dest
+    = (ex_pomdp_policy_dest, RFail).
+Proof.
+  split; [intros; cbn; auto|]. split; [intros [| |] ? ? H; inversion H|].
+  split; [intros [| |] ? ? H; inversion H|]. split; [intros [| |] ? H; inversion H|]. reflexivity.
+Qed.
+
+Example ex_checkers_nonvacuous :
+  valid_model_b ex_model = true /\ valid_mdp_policy_b ex_policy = true /\ valid_pomdp_policy_b ex_pomdp_policy = true.
+Proof. repeat split. Qed.
